@@ -14,6 +14,8 @@
 """This module contains a compiler that merges Gaussian operations into their symplectic forms,
 in a Gaussian and non-Gaussian circuit."""
 
+import networkx as nx
+
 import strawberryfields.program_utils as pu
 
 from .compiler import Compiler
@@ -332,9 +334,28 @@ class GaussianMerge(Compiler):
                         merged_gaussian_ops.append(predecessor)
 
         merged_gaussian_ops = self.remove_invalid_operations(op, merged_gaussian_ops)
+        merged_gaussian_ops = self.remove_separated_operations(op, merged_gaussian_ops)
 
         if self.is_redundant_merge(op, merged_gaussian_ops):
             return []
+        return merged_gaussian_ops
+
+    def remove_separated_operations(self, op, merged_gaussian_ops):
+        """
+        Helper function that removes operations from merged_gaussian_ops if an operation that is not merged has
+        to be executed between them and another operation of the merge (including op).
+        E.X BS | q[0],q[1] -> Rgate | q[1] -> Kgate | q[1] -> BS | q[0],q[1]: the second BS cannot be merged.
+        """
+        removed = True
+        while removed:
+            removed = False
+            group = [op] + merged_gaussian_ops
+            for gaussian_op in merged_gaussian_ops:
+                outside = [pre for pre in nx.ancestors(self.DAG, gaussian_op) if pre not in group]
+                if any(nx.has_path(self.DAG, member, pre) for pre in outside for member in group):
+                    merged_gaussian_ops.remove(gaussian_op)
+                    removed = True
+                    break
         return merged_gaussian_ops
 
     def is_redundant_merge(self, op, merged_gaussian_ops):
